@@ -97,6 +97,46 @@ var c01Ref = map[string]map[string][]string{
 // exist only for shapes a well-formed request cannot have.
 var c01OpChildren = map[string]int{"SimpleBindMessage": 3, "SearchMessage": 8, "ExtendedOperationMessage": -1, "ModifyMessage": 2, "AddMessage": 2}
 
+// c01Counts: node -> {mandatory elements, all elements} of its RFC 4511 element list.
+var c01Counts = map[string]map[string][2]int{
+	"SimpleBindMessage":        {"OP": {3, 3}},
+	"SearchMessage":            {"OP": {8, 8}},
+	"ExtendedOperationMessage": {"OP": {1, 2}},
+	"ModifyMessage":            {"OP": {2, 2}, "OP.Children[1].Children[*]": {2, 2}, "OP.Children[1].Children[*].Children[1]": {2, 2}},
+	"AddMessage":               {"OP": {2, 2}, "OP.Children[1].Children[*]": {2, 2}},
+}
+
+// countAssert matches an assert event on a node's child count: assert(NODE min=K ...) / assert(NODE len=K ...).
+var countAssert = regexp.MustCompile(`^assert\((\S+?)(?: min=(\d+))?(?: len=(\d+))?(?:\.Children\[[^\]]*\])? is `)
+
+// shapeCondition: the condition (as the path interpreter prints it) tests only
+// the BER shape of the request, a library decoder's verdict, or the bind version.
+func shapeCondition(c string) bool {
+	c = strings.TrimPrefix(c, "!")
+	switch {
+	case c == "==(nil,nil)" || !strings.Contains(c, "$0"):
+		return true // does not depend on the request at all
+	case strings.Contains(c, ".Identifier.ClassType") || strings.Contains(c, ".Identifier.TagType") || strings.Contains(c, ".Identifier.Tag,") || strings.Contains(c, ".Identifier.Tag)") || strings.Contains(c, ".Identifier.Tag]"):
+		return true
+	case strings.Contains(c, "len(") && strings.Contains(c, ".Children)") && !strings.Contains(c, ".Data") && !strings.Contains(c, ".Value"):
+		return true
+	case strings.HasPrefix(c, "assert(") && strings.HasSuffix(c, ")#1"):
+		return true // comma-ok of a type assertion on a decoded value
+	case shapeNilTest.MatchString(c):
+		return true
+	case strings.Contains(c, "DecompileFilter(") || strings.Contains(c, "decodeControl("):
+		return true
+	case bindVersionTest.MatchString(c):
+		return true
+	}
+	return false
+}
+
+var (
+	shapeNilTest    = regexp.MustCompile(`^==\((nil,[^()]*\.Children\[[^()]*\]|[^()]*\.Children\[[^()]*\],nil)\)$`)
+	bindVersionTest = regexp.MustCompile(`^==\(assert\(\$0\.Packet\.Children\[1\]\.Children\[0\]\.Value,int64\)(#0)?,3\)$`)
+)
+
 // c01Asserts: node (short notation) -> required "CLASS type [tag]".
 var c01Asserts = map[string]map[string]string{
 	"*":                 {"R.Children[0]": "UNIV p INT", "R.Children[2]": "CTX c"},
@@ -235,6 +275,7 @@ func checkC01(c *Ctx) {
 
 	// ---------------------------------------------------------------- field origins
 	nm := km.newMessage
+	rejects := map[string]string{} // "type|condition" -> position of a rejection that depends on more than the request's shape
 	paths, complete := c.guidedPaths(nm, &symEnv{}, map[string]bool{G + ".decodeControl": true}, 6000)
 	R.Count("C01/success-paths", len(paths))
 	if !complete {
@@ -293,6 +334,14 @@ func checkC01(c *Ctx) {
 		var as []string
 		for _, a := range p.Asserts {
 			as = append(as, shortOrigin(a))
+		}
+		for _, fb := range p.AllForced {
+			if !shapeCondition(fb.Cond) {
+				k := typ + "|" + fb.Cond
+				if rejects[k] == "" {
+					rejects[k] = fb.Pos
+				}
+			}
 		}
 		sig := ""
 		for _, fk := range sortedKeys(fields) {
@@ -416,6 +465,48 @@ func checkC01(c *Ctx) {
 				R.Fail("C01-assert", "*"+typ+": "+node+" is "+want[node], c.P.Pos(nm.Pos()), "the node is read without its class/type/tag having been asserted")
 			case sawAny:
 				R.OK("C01-assert", "*"+typ+": "+node+" is "+want[node], c.P.Pos(nm.Pos()), "asserted with the RFC's class, type and tag on every path that reads it")
+			}
+		}
+	}
+	// ---------------------------------------------------------------- what the decoder rejects
+	// C01-reject: "every well-formed request reaches the handler": the conditions under which the decode path gives up
+	// (the branches whose other side cannot succeed) test the request's shape - class, type, tag, number of children,
+	// the dynamic type ber gave a value, the library decoders of filter and controls - and the bind version; a
+	// rejection that depends on the bytes of a value (its characters, its length, its range) refuses requests RFC 4511
+	// calls well-formed
+	for _, k := range sortedKeys(rejects) {
+		parts := strings.SplitN(k, "|", 2)
+		R.Fail("C01-reject", "*"+parts[0]+": decoding gives up only on malformed requests", rejects[k], "the decoder rejects a request depending on "+parts[1]+", which is not a property of the request's BER shape: well-formed requests with such values never reach the handler")
+	}
+	R.Trivial("C01-reject", "newMessage: rejections depend on the request's shape only", c.P.Pos(nm.Pos()), sprintf("%d success paths: every branch taken because its other side cannot succeed tests class / type / tag / child count / dynamic type / a library decoder's error / the bind version", len(paths)))
+	// C01-count: a child-count assertion agrees with the RFC's element list: an exact count only where the RFC has no
+	// optional element, a minimum no larger than the RFC's mandatory elements
+	for _, typ := range sortedKeys(c01Counts) {
+		for _, v := range byType[typ] {
+			for _, a := range v.asserts {
+				m := countAssert.FindStringSubmatch(a)
+				if m == nil {
+					continue
+				}
+				lim, known := c01Counts[typ][m[1]]
+				if !known {
+					continue
+				}
+				key := "*" + typ + ": number of children of " + m[1]
+				if m[2] != "" {
+					if n, _ := strconv.Atoi(m[2]); n > lim[0] {
+						R.Fail("C01-count", key, c.P.Pos(nm.Pos()), sprintf("the decoder demands at least %d children but RFC 4511 allows %d: well-formed requests are rejected", n, lim[0]))
+					} else {
+						R.OK("C01-count", key, c.P.Pos(nm.Pos()), sprintf("minimum %d <= the RFC's %d mandatory elements", n, lim[0]))
+					}
+				}
+				if m[3] != "" {
+					if n, _ := strconv.Atoi(m[3]); lim[0] != lim[1] || n != lim[0] {
+						R.Fail("C01-count", key, c.P.Pos(nm.Pos()), sprintf("the decoder demands exactly %d children but RFC 4511 allows %d to %d: well-formed requests are rejected", n, lim[0], lim[1]))
+					} else {
+						R.OK("C01-count", key, c.P.Pos(nm.Pos()), sprintf("exactly %d, as in the RFC", n))
+					}
+				}
 			}
 		}
 	}
